@@ -219,8 +219,10 @@ def mutate_fields(rng, name, msg, cfg):
         for _ in range(10):
             out.append(("fbur-rect", m_fbur(rng.choice([0, 1, 2, 255]), rng.choice(vals), rng.choice(vals), rng.choice(vals), rng.choice(vals))))
     elif t == 0:
-        for _ in range(10):
+        for _ in range(8):
             out.append(("spf-f", rand_spf(rng)))
+        for _ in range(10):
+            out.append(("spf-edge", boundary_spf(rng)))
     elif t == 250:
         for v in [0, 1, 2, 255]:
             out.append(("xvp-v", m_xvp(v, rng.getrandbits(8))))
@@ -253,6 +255,20 @@ def rand_spf(rng):
     mx = lambda: rng.choice([0, 1, 3, 7, 31, 63, 255, 256, 1023, 65535, rng.getrandbits(16)])
     sh = lambda: rng.choice([0, 3, 5, 8, 11, 16, 24, 30, 31, 32, 33, 63, 64, 128, 255, rng.getrandbits(8)])
     return m_spf(bpp, rng.choice([8, 16, 24, 32, 0, 255]), rng.choice([0, 1, 7]), tc, mx(), mx(), mx(), sh(), sh(), sh())
+
+
+def boundary_spf(rng):
+    """one channel exactly at / just beyond the edge of the pixel: shift bpp-1, bpp, bpp+1 with
+    maximum 0, or the largest maximum that fits at that shift and the next larger one"""
+    bpp = rng.choice([8, 16, 32, 32, 24])
+    ch = [[255 if bpp >= 24 else 3, 0], [255 if bpp >= 24 else 3, 8 if bpp >= 24 else 2], [255 if bpp >= 24 else 3, 16 if bpp >= 24 else 4]]
+    k = rng.randrange(3)
+    sh = rng.choice([bpp - 1, bpp, bpp + 1, bpp - 8, 31, 32, 33, 0])
+    sh = max(0, min(255, sh))
+    room = max(0, bpp - sh)
+    mx = rng.choice([0, (1 << room) - 1, 1 << room, 65535]) & 0xFFFF
+    ch[k] = [mx, sh]
+    return m_spf(bpp, rng.choice([bpp, 24]), rng.choice([0, 1]), 1, ch[0][0], ch[1][0], ch[2][0], ch[0][1], ch[1][1], ch[2][1])
 
 
 def wellformed_spf(rng):
@@ -375,7 +391,8 @@ def sc_pixfmt(rng):
     s = Script(rng, cfg)
     for _ in range(rng.randint(3, 6)):
         i = s.handshake()
-        fmt = rand_spf(rng) if rng.random() < 0.6 else wellformed_spf(rng)
+        r = rng.random()
+        fmt = rand_spf(rng) if r < 0.4 else (boundary_spf(rng) if r < 0.7 else wellformed_spf(rng))
         s.tag("spf")
         order = rng.random()
         encs = [rng.choice(ENCODERS)] + rng.sample([E_COPY, E_XCURSOR, E_RICH, E_PTRPOS, E_LASTRECT, E_NEWFB], rng.randint(0, 4))
@@ -576,6 +593,65 @@ def sc_fields(rng):
     return s
 
 
+WS_REQ = (b"GET / HTTP/1.1\r\nHost: localhost\r\nUpgrade: websocket\r\nConnection: Upgrade\r\n"
+          b"Sec-WebSocket-Key: dGhlIHNhbXBsZSBub25jZQ==\r\nOrigin: http://localhost\r\n"
+          b"Sec-WebSocket-Protocol: binary\r\nSec-WebSocket-Version: 13\r\n\r\n")
+
+
+def ws_frame(rng, payload, opcode=2, fin=1, masked=True):
+    hdr = u8((0x80 if fin else 0) | opcode)
+    L = len(payload)
+    mbit = 0x80 if masked else 0
+    if L < 126:
+        hdr += u8(mbit | L)
+    elif L < 65536:
+        hdr += u8(mbit | 126) + u16(L)
+    else:
+        hdr += u8(mbit | 127) + struct.pack(">Q", L)
+    if not masked:
+        return hdr + payload
+    mask = rbytes(rng, 4)
+    return hdr + mask + bytes(b ^ mask[k & 3] for k, b in enumerate(payload))
+
+
+def sc_ws(rng):
+    """WebSocket entry point, smoke only (the decoder itself is C09's subject): whole frames that
+    carry the RFB handshake and hostile RFB messages, plus a few malformed but complete frames.
+    The model does not predict these connections (`?`); the oracle does all the work."""
+    cfg = rand_cfg(rng, pw=0, tight=0)
+    s = Script(rng, cfg)
+    pool = valid_messages(rng, cfg)
+    for _ in range(rng.randint(1, 3)):
+        i = s.conn(WS_REQ)
+        s.tag("ws")
+        s.send(i, ws_frame(rng, b"RFB 003.008\n"))
+        s.send(i, ws_frame(rng, u8(1)) + ws_frame(rng, u8(1)))
+        for _ in range(rng.randint(2, 6)):
+            nm, m = rng.choice(pool)
+            if rng.random() < 0.4:
+                nm, m = rng.choice(mutate_fields(rng, nm, m, cfg))
+            if len(m) > 100000:
+                m = m[:100000]
+            k = rng.random()
+            if k < 0.6:
+                data = ws_frame(rng, m)
+            elif k < 0.75:      # one RFB message spread over two frames
+                c = rng.randrange(1, len(m)) if len(m) > 1 else 1
+                data = ws_frame(rng, m[:c]) + ws_frame(rng, m[c:])
+            elif k < 0.85:
+                data = ws_frame(rng, m, opcode=rng.choice([0, 1, 9, 10, 3, 15]))
+            elif k < 0.93:
+                data = ws_frame(rng, m, masked=False)
+            else:
+                data = ws_frame(rng, b"", opcode=8)
+            s.send(i, data)
+            if rng.random() < 0.3:
+                s.tick()
+    s.tick()
+    s.lines.append("end")
+    return s
+
+
 def sc_copyrects(rng):
     """application schedules a many-rectangle copy region while a CopyRect client is connected (finding h)"""
     cfg = rand_cfg(rng, w=128, h=96, wenc=0)
@@ -592,7 +668,7 @@ def sc_copyrects(rng):
 
 
 SCENARIOS = [(sc_mix, 30), (sc_fields, 30), (sc_trunc, 12), (sc_preauth, 12), (sc_pixfmt, 12), (sc_scale, 8), (sc_block, 10),
-             (sc_ft, 10), (sc_clip, 8), (sc_unknown, 4), (sc_copyrects, 3)]
+             (sc_ft, 10), (sc_clip, 8), (sc_unknown, 4), (sc_copyrects, 3), (sc_ws, 4)]
 
 
 def gen_scripts(rng, n):
@@ -659,6 +735,9 @@ def oracle(script, cfg, impl, solo):
         amax = int(raw.get("amax", 0))
         if amax > abound:
             return "allocation of %d bytes on behalf of one message (bound %d): %s after %s" % (amax, abound, ob, op[:80])
+        # update sending (not modelled): encoder state is sized by the screen, never by the request
+        if int(raw.get("umax", 0)) > (4 << 20):
+            return "allocation of %s bytes while sending an update (screens here are at most 128x96)" % raw.get("umax")
     wi = [l for l in impl if l.startswith("#wit")]
     ws = [l for l in solo if l.startswith("#wit")]
     if wi != ws:
@@ -668,6 +747,32 @@ def oracle(script, cfg, impl, solo):
         return "witness tick count differs: %d vs %d" % (len(wi), len(ws))
     if wi and wi[-1].split()[2] != "1":
         return "witness is no longer connected at the end"
+    return None
+
+
+# Signatures of the genuine defects found on the unchanged tree (docs/C04.md).  A failure is tagged with
+# a finding id only if it shows exactly that defect's signature; anything else stays a violation.
+import re as _re
+FINDING_SIGS = [
+    ("C04-pixfmt-shift-ub", _re.compile(r"(tableinittctemplate|tableinit24|zrle|zrleencodetemplate|tight)\.c:\d+:\d+: runtime error: shift exponent -?\d+ is (too large|negative)")),
+    ("C04-copyregion-overflow", _re.compile(r"rfbserver\.c:\d+:\d+: runtime error: index \d+ out of bounds for type 'char \[32768\]'")),
+]
+
+
+def classify_finding(script, cfg, impl, err):
+    for fid, rx in FINDING_SIGS:
+        if rx.search(err or ""):
+            return fid
+    if "HANG" in impl and cfg.get("ft"):
+        # rfbWriteExact leaves outputMutex locked: only reachable after a file-transfer request (type 7,
+        # content 3) whose reply could not be written (peer stopped reading or is gone)
+        ops = [l for l in script.splitlines() if l and not l.startswith("#")]
+        obs = [l for l in impl if not l.startswith("#")]
+        last = ops[len(obs) - 1] if 0 < len(obs) <= len(ops) else ""
+        sends = [l for l in ops[:len(obs)] if l.startswith("send ")]
+        if any(" 0703" in (" " + l.split()[2]) or "0703" in l.split()[2] for l in sends) and \
+           (any(l.startswith("stopread") for l in ops[:len(obs)]) or any(l.endswith(" eof") for l in sends) or last.startswith(("tick", "reset"))):
+            return "C04-writeexact-lock-wedge"
     return None
 
 
@@ -681,7 +786,7 @@ def run_one(ctx, h, d, script, cfg):
         if "HANG" in impl:
             what = "server wedged (watchdog)"
         return impl, [], {"kind": kind, "what": "C04: " + what, "script": script.splitlines()[:600],
-                          "impl": impl[-12:], "detail": err}
+                          "impl": impl[-12:], "detail": err, "finding": classify_finding(script, cfg, impl, err)}
     rc2, solo, err2 = ctx.run_lines(h, script, timeout=300, env=env, args=["--solo"])
     o = oracle(script, cfg, impl, solo)
     if o:
@@ -747,10 +852,18 @@ def run(ctx):
         for f in sorted(os.listdir(cdir)) if os.path.isdir(cdir) else []:
             if f.endswith(".ops"):
                 scripts.append(("corpus:" + f, open(os.path.join(cdir, f)).read(), {}))
-        n = 500 if ctx.tier == "quick" else 6000
+        n = 600 if ctx.tier == "quick" else 15000
         for name, s in gen_scripts(ctx.rng, n):
             scripts.append((name, s.text(), s.tags))
     results = common.pmap(lambda sc: run_one(ctx, h, d, sc[1], cfg_of(sc[1])), scripts)
+    import glob, shutil
+    import time as _time
+    for dpath in glob.glob("/tmp/c04sbx-*"):          # sandboxes of harness runs that died long ago
+        try:
+            if _time.time() - os.path.getmtime(dpath) > 1800:
+                shutil.rmtree(dpath, ignore_errors=True)
+        except OSError:
+            pass
     evals, seen = 0, set()
     for (name, script, tags), (impl, model, f) in zip(scripts, results):
         dist["scenario"][name] = dist["scenario"].get(name, 0) + 1
@@ -789,7 +902,7 @@ def run(ctx):
 PARTIAL = [
     "memory safety of code outside the modelled guards/size computations is sampled by the ASan/UBSan correspondence run, not proven",
     "slow-trickle peers (one byte per wait-epsilon) keep a call busy for reads_in_message x wait; proven is the bound for peers that stop or reset",
-    "WebSocket / HTTP entry points: smoke only here (deep coverage: C09, C20)",
+    "WebSocket entry point: smoke scenario only here (decoder: C09); the HTTP entry point is not exercised here (C20)",
 ]
 ASSUMPTIONS = [
     "single-threaded application-driven event loop (rfbProcessEvents); threaded mode is C13",
